@@ -6,13 +6,20 @@ V = os.path.dirname(os.path.dirname(os.path.abspath(__file__)))
 ms = json.load(open(os.path.join(V, 'tools', 'mutants', 'benign.json')))
 bad = 0
 for m in ms:
-    p = os.path.join('/repo', m['file'])
-    s = open(p).read()
-    if (s.count(m['old']) != 1 and not m.get('all')) or s.count(m['old']) == 0:
-        print('%-4s SKIP (anchor occurs %d times)' % (m['id'], s.count(m['old'])))
-        bad += 1
-        continue
-    open(p, 'w').write(s.replace(m['old'], m['new']))
+    if 'patch' in m:    # a whole patch file (several hunks) instead of one replacement
+        r = subprocess.run(['git', '-C', '/repo', 'apply', os.path.join(V, 'tools', 'mutants', m['patch'])], capture_output=True, text=True)
+        if r.returncode != 0:
+            print('%-4s SKIP (patch does not apply)' % m['id'])
+            bad += 1
+            continue
+    else:
+        p = os.path.join('/repo', m['file'])
+        s = open(p).read()
+        if (s.count(m['old']) != 1 and not m.get('all')) or s.count(m['old']) == 0:
+            print('%-4s SKIP (anchor occurs %d times)' % (m['id'], s.count(m['old'])))
+            bad += 1
+            continue
+        open(p, 'w').write(s.replace(m['old'], m['new']))
     try:
         cc = subprocess.run(['gcc', '-fsyntax-only', '-w', '-DMIR_PARALLEL_GEN', '-I/repo', '-std=gnu11', '-fsigned-char', '-DNDEBUG',
                              os.path.join('/repo', m.get('unit', m['file']))], capture_output=True, text=True)
